@@ -238,7 +238,9 @@ def check_once(reg, c, raw_args, variants=("compiled", "py_func")):
                                          "clause_src": src}})
         for p, ty in c.params.items():
             if ty.kind in ("arr", "list") and p not in c.modifies:
-                if not np.array_equal(np.asarray(env[p]), np.asarray(by_name_old[p])):
+                cur_, old_ = np.asarray(env[p]), np.asarray(by_name_old[p])
+                same = np.array_equal(cur_, old_, equal_nan=True) if cur_.dtype.kind == "f" else np.array_equal(cur_, old_)
+                if not same:
                     fails.append({"clause": "%s.frame.%s" % (c.name, p), "site": c.key + " [%s]" % vname,
                                   "detail": {"args": jsonable(raw_args), "after": jsonable(env[p])}})
     return fails
